@@ -1,5 +1,8 @@
 use crate::heartbeats::Heartbeat;
 use log::trace;
+#[cfg(amiquip_verif)]
+use crate::verif::timer::Timer;
+#[cfg(not(amiquip_verif))]
 use mio_extras::timer::Timer;
 use std::time::Duration;
 
